@@ -94,6 +94,34 @@ fn cross<CS: BbsCiphersuite, CS2: BbsCiphersuite>(rep: &Report, ck: &str, c: &Ca
         "commitment octets of one suite handed to the signer of the other",
     )?;
 
+    // ---- the commitment validated under any other interface identifier (public helper) ----------------
+    {
+        let cb = com.to_bytes();
+        let bg = |id: &[u8]| Generators::create::<CS>(m + 1, Some(&[b"BLIND_", id].concat()));
+        // positive control: the right identifier validates
+        if Commitment::<BBSplus<CS>>::deserialize_and_validate_commit(Some(&cb), &bg(CS::API_ID_BLIND), Some(CS::API_ID_BLIND)).is_err() {
+            return Err(herr("validate-commit", "honest commitment rejected under its own api_id".into()));
+        }
+        let long = |n: usize| -> Vec<u8> { let mut v = CS::API_ID_BLIND.to_vec(); v.resize(n, b'x'); v };
+        let ids: Vec<(String, Vec<u8>)> = vec![
+            ("plain api_id".into(), CS::API_ID.to_vec()),
+            ("other suite's blind api_id".into(), CS2::API_ID_BLIND.to_vec()),
+            ("empty".into(), vec![]),
+            ("custom".into(), b"MY_APP_".to_vec()),
+            ("blind api_id padded to 200 octets".into(), long(200)),
+            ("blind api_id padded to 251 octets".into(), long(251)),
+            ("blind api_id padded to 252 octets".into(), long(252)),
+            ("blind api_id padded to 255 octets".into(), long(255)),
+            ("blind api_id padded to 300 octets".into(), long(300)),
+        ];
+        for (what, id) in ids {
+            for gens_id in [&id[..], CS::API_ID_BLIND] {
+                let acc = catch(|| Commitment::<BBSplus<CS>>::deserialize_and_validate_commit(Some(&cb), &bg(gens_id), Some(&id)).is_ok()).unwrap_or(false);
+                reject(&format!("commitment({},blind)->validate_commit(other api_id)", sn), acc, &what)?;
+            }
+        }
+    }
+
     // ---- same suite, other interface ---------------------------------------------------------
     let all: Vec<Vec<u8>> = msgs.iter().cloned().chain(cm.iter().cloned()).collect();
     if let Ok(x) = BlindSignature::<BBSplus<CS>>::from_bytes(&sig.to_bytes()) {
